@@ -1503,6 +1503,9 @@ class ContactHandler(Messenger, dbus.service.Object):
             if not self._in_sess:
                 # waiting for session
                 return True
+            if self._in_term:
+                # no new transfer may start after SESS_TERM
+                return False
             if not self._tx_pend_start:
                 # nothing to do
                 return False
